@@ -4,7 +4,7 @@ use crate::rng::Rng;
 use crate::xrun::{run_binary, run_inproc, XCase};
 use crate::Ctx;
 
-const OUTCOMES: [&str; 7] = ["e0", "e1", "e125", "e255", "k9", "nf", "cr"];
+const OUTCOMES: [&str; 8] = ["e0", "e1", "e125", "e255", "k9", "nf", "cr", "k34"];
 
 fn tags_for(c: &XCase, imp: &str) -> Vec<&'static str> {
     let mut t = vec![];
